@@ -33,12 +33,24 @@ def _first_packets(sut, r, jsonp):
     return split_payload(text)
 
 
-def _open_numbers(fl, pi, grace, pt, M, use_tuple, jsonp, ws):
+def _open_numbers(fl, pi, grace, pt, M, use_tuple, jsonp, ws, greet=False):
     cfg = dict(ping_interval=(pi, grace) if use_tuple else pi, ping_timeout=pt, max_http_buffer_size=M)
     if not use_tuple:
         grace = 0
     sut = mk(fl, async_handlers=False, **cfg)
     try:
+        if greet:
+            # the application greets the new client from its connect handler (and accepts): OPEN must still come first
+            base = sut.srv.handlers['connect']
+            if fl == 0:
+                def connect(sid, environ):
+                    sut.srv.send(sid, 'welcome')
+                    return base(sid, environ)
+            else:
+                async def connect(sid, environ):
+                    await sut.srv.send(sid, 'welcome')
+                    return base(sid, environ)
+            sut.srv.on('connect', connect)
         if ws:
             r = sut.open('websocket')
             sut.settle()
@@ -106,6 +118,19 @@ def open_numbers_fractional(fl: int, k: int, jsonp: bool) -> str:
 def _frac(fl, k, jsonp):
     pi, g, pt = FRACS[k]
     return _open_numbers(fl, pi, g, pt, 1000000, g != 0, jsonp, False)
+
+
+def _greet(fl, jsonp, ws):
+    return _open_numbers(fl, 25, 0, 20, 1000000, False, jsonp, ws, greet=True)
+
+
+@cond(quick=dict(timeout=60), thorough=dict(timeout=120))
+def open_first_with_greeting(fl: int, jsonp: bool, ws: bool) -> str:
+    """
+    pre: 0 <= fl <= 1 and not (jsonp and ws)
+    post: _ == ''
+    """
+    return verdict(untraced(_greet, fl, jsonp, ws))
 
 
 TCFG = (None, ['polling'], ['websocket'], ['polling', 'websocket'], 'polling')
